@@ -59,20 +59,31 @@ def verify(sid, tests=None):
     return 0 if res['ok'] else 1
 
 
-def run(sid, tier='quick', pids=None, jobs=None):
+def run(sid, tier='quick', pids=None, jobs=None, scratch=False):
     d = os.path.join(SEEDED, sid)
     meta = json.load(open(os.path.join(d, 'meta.json')))
     pids = pids or [meta['property']]
-    rc, o = sh('git -C /repo status --porcelain --untracked-files=no')
-    assert o.strip() == '', '/repo has uncommitted changes:\n' + o
-    rc, o = sh('git -C /repo apply %s/patch.diff' % d)
-    assert rc == 0, 'patch does not apply to /repo: ' + o
+    sc = '/var/tmp/seeded-run-%s' % sid
+    if scratch:
+        # same thing without touching /repo (used while other work reads /repo): patched copy of /repo/python
+        shutil.rmtree(sc, ignore_errors=True)
+        os.makedirs(sc)
+        shutil.copytree('/repo/python', sc + '/python', ignore=shutil.ignore_patterns('__pycache__'))
+        rc, o = sh('patch -p1 < %s/patch.diff' % d, cwd=sc)
+        assert rc == 0, 'patch does not apply: ' + o
+    else:
+        rc, o = sh('git -C /repo status --porcelain --untracked-files=no')
+        assert o.strip() == '', '/repo has uncommitted changes:\n' + o
+        rc, o = sh('git -C /repo apply %s/patch.diff' % d)
+        assert rc == 0, 'patch does not apply to /repo: ' + o
     out = {}
     try:
         for pid in pids:
             t0 = time.time()
             cmd = '%s -m mc.run %s --tier %s' % (PY, pid, tier) + (' --jobs %d' % jobs if jobs else '')
             env = dict(os.environ, VERIF_NO_EVIDENCE='1')
+            if scratch:
+                env['VERIF_NUMQI_PATH'] = sc + '/python'
             rc, o = sh(cmd, cwd=VERIF_DIR, env=env, timeout=7200)
             lines = [l for l in o.splitlines() if l.startswith('VIOLATION') or l.startswith('    key=')]
             out[pid] = {'exit': rc, 'detected': rc == 1, 'wall_s': round(time.time() - t0, 1), 'violation_lines': lines[:8], 'summary': [l for l in o.splitlines() if l.startswith(pid + ' tier=')][-1:]}
@@ -84,8 +95,11 @@ def run(sid, tier='quick', pids=None, jobs=None):
                         shutil.copy(rp, os.path.join(d, 'replay_%s.json' % pid))
                     break
     finally:
-        sh('git -C /repo checkout -- .')
-    json.dump({'tier': tier, 'checks': out}, open(os.path.join(d, 'result.json'), 'w'), indent=1)
+        if scratch:
+            shutil.rmtree(sc, ignore_errors=True)
+        else:
+            sh('git -C /repo checkout -- .')
+    json.dump({'tier': tier, 'applied_to': 'scratch copy of /repo/python' if scratch else '/repo (git apply, reverted afterwards)', 'checks': out}, open(os.path.join(d, 'result.json'), 'w'), indent=1)
     print(json.dumps(out, indent=1))
     return 0
 
@@ -98,15 +112,16 @@ def main():
     ap.add_argument('--tier', default='quick')
     ap.add_argument('--pids', default=None)
     ap.add_argument('--jobs', type=int, default=None)
+    ap.add_argument('--scratch', action='store_true')
     a = ap.parse_args()
     if a.cmd == 'verify':
         sys.exit(verify(a.sid, a.tests))
     if a.cmd == 'run':
-        sys.exit(run(a.sid, a.tier, a.pids.split(',') if a.pids else None, a.jobs))
+        sys.exit(run(a.sid, a.tier, a.pids.split(',') if a.pids else None, a.jobs, a.scratch))
     for sid in sorted(os.listdir(SEEDED)):
         if os.path.exists(os.path.join(SEEDED, sid, 'patch.diff')):
             print('==', sid)
-            run(sid, a.tier, None, a.jobs)
+            run(sid, a.tier, None, a.jobs, a.scratch)
 
 
 if __name__ == '__main__':
